@@ -1,7 +1,7 @@
 (* Correspondence glue for C09: what a case is and when model and implementation agree on it. *)
 From Coq Require Import String Ascii List Bool NArith.
 Import ListNotations.
-Require Import Verif.Base.Harness Verif.Codec.JsonClean Verif.Codec.Dispatch Verif.Codec.PostProcess Verif.Codec.FileWrite.
+Require Import Verif.Base.Harness Verif.Codec.JsonClean Verif.Codec.Dispatch Verif.Codec.PostProcess Verif.Codec.FileWrite Verif.Codec.StripCtx.
 
 Definition B (s:string) : bytes := list_ascii_of_string s.
 Definition Ch (n:N) : ascii := ascii_of_N n.
@@ -15,6 +15,8 @@ Inductive c09_case :=
 | CCompact (raw cleaned:string)               (* compact protojson output *)
 | CDispatch (path:string) (d fd:decoder)      (* decoder chosen by FromPBStringContents / by FromPB for this name *)
 | CFile (writer:string) (old:option string) (enc after:string)   (* file writer onto a path holding `old`: content after *)
+| CCli (json compact:bool) (v out:gval)       (* `sysl pb --mode M [--compact]`: the Go value tree of the compiled module
+                                                 (as reflection shows it) and of what the binary emitted, decoded *)
 | CPost (cn:positive) (m:pmodule) (out:option pmodule).  (* compile of an import of x.pb holding m: the applications that
                                                  come out (None: the compile panicked); cn = the collector endpoint's name *)
 
@@ -23,7 +25,11 @@ Record source := {
   src_cases : list (string * decoder);
   src_after : decoder;
   src_fallback : decoder;
-  src_writers : list (string * open_mode)
+  src_writers : list (string * open_mode);
+  src_sites : list (string * list string);      (* calls of removeSourceContext in protobufCmd.Execute with their guards *)
+  src_rule : rule;                              (* the walk of removeSourceContextImpl *)
+  src_schema : schema_t;                        (* the structs of sysl.pb.go *)
+  src_oneofs : oneofs_t
 }.
 
 Definition c09_ok (s:source) (c:c09_case) : bool :=
@@ -51,5 +57,8 @@ Definition c09_ok (s:source) (c:c09_case) : bool :=
       | Some (_, m) => option_eqb bytes_eqb (written m (option_map B old) (B enc)) (Some (B after))
       | None => false
       end
+  | CCli json compact v out =>
+      conf (src_schema s) (src_oneofs s) (TPtr "Module"%string) v && conf (src_schema s) (src_oneofs s) (TPtr "Module"%string) out &&
+      gval_eqb (cli_model (src_sites s) (src_rule s) json compact v) out
   | CPost cn m out => option_eqb pmodule_eqb (post cn m) out
   end.
